@@ -475,7 +475,7 @@ def run_unit(u, scratch, probes, tier):
     a_gb, b_gb = os.path.join(wdir, "a.gb"), os.path.join(wdir, "b.gb")
     cc = ["goto-cc"]
     if g.engine == "G":
-        cc += ["-DHAVE_CONFIG_H", "-I" + scratch.src]
+        cc += ["-DHAVE_CONFIG_H", "-I" + scratch.src, '-DLOCALEDIR="/usr/local/share/locale"']
     cc += u.get("ccflags", "").split()
     cc += ["--function", entry, path, "-o", a_gb]
     rc, o, t = run(cc, timeout=300)
@@ -538,8 +538,8 @@ def run_unit(u, scratch, probes, tier):
         pj = parse_cbmc_json(o)
         fails = [pp.get("property", "") for pp in (pj[0] or []) if pp.get("status") == "FAILURE"
                  and "vp_canary" not in pp.get("description", "")]
-        if fails and all(re.match(r"^__CPROVER_contracts_\w+\.unwind\.\d+$", f) for f in fails):
-            continue
+        if any(re.match(r"^__CPROVER_contracts_\w+\.unwind\.\d+$", f) for f in fails):
+            continue    # a library loop bound was too small: every other verdict of this attempt is unreliable
         break
     res["cmds"].append(" ".join(cmd))
     res["unwind_flags"] = uw
